@@ -323,6 +323,11 @@ def run(ctx, facts):
     C04.drawseq_rule(ctx, facts, C04.SS + "sketch")
     C04.deleg_slice(ctx, facts, C04.SMH + "sketch_slice")
     C04.deleg_slice(ctx, facts, C04.SS + "sketch_slice")
+    # every item is offered to the registers, and SetSketch's draw loop is only left when no register can be raised any more
+    C04._exit_setsketch(ctx, facts)
+    ctx.rule("SKIP", C04.RULES["SKIP"])
+    C04.skip_rule(ctx, facts, C04.SMH + "sketch")
+    C04.skip_rule(ctx, facts, C04.SS + "sketch")
     # "all interleavings of sketch / merge / further sketch calls": a sketcher brought back by reinit is a new one
     from . import C13
     ctx.rule("REINIT", "reinit re-establishes every live mutated field of SuperMinHash and SetSketcher with the constructor's value (RESET analysis of C13)")
